@@ -161,6 +161,45 @@ fn do_request(env: &WorkerEnv, scn: &Scn, req: &Req, thread: usize, idx: usize, 
                 Err(o) => r.outcome = o,
             }
         }
+        "server-proc" => {
+            // end-to-end: the real svgdx-server binary (its own route table, hyper, tokio)
+            let am = if cfg.add_metadata { Some(true) } else { None };
+            // NB: the lock is never held across a yield point (post() has none)
+            let posted = {
+                let mut guard = SERVER.lock().unwrap();
+                match guard.as_mut() {
+                    None => None,
+                    Some(srv) => {
+                        let h = srv.post(doc, am, Duration::from_secs(10));
+                        let alive = srv.alive();
+                        if h.is_none() {
+                            *guard = None;
+                        }
+                        Some((h, alive))
+                    }
+                }
+            };
+            match posted {
+                None => {
+                    r.notes.push("server_proc_unavailable".into());
+                    // fall back to the in-process router so the request is still judged
+                    match fe_router(doc, am) {
+                        Ok(h) => {
+                            r.http = Some((h.status, h.content_type.clone()));
+                            r.outcome = http_outcome(h.status, &h.body);
+                        }
+                        Err(o) => r.outcome = o,
+                    }
+                }
+                Some((Some(h), _)) => {
+                    r.http = Some((h.status, h.content_type.clone()));
+                    r.outcome = http_outcome(h.status, &h.body);
+                }
+                Some((None, alive)) => {
+                    r.outcome = Outcome::Panic(format!("no HTTP response from svgdx-server (process {})", if alive { "alive" } else { "died" }));
+                }
+            }
+        }
         fe @ ("cli-file" | "cli-proc-file" | "cli-proc-stdio") => {
             let dir = client_dir(env, req.client).join(format!("t{thread}r{idx}"));
             let _ = std::fs::remove_dir_all(&dir);
@@ -297,6 +336,22 @@ fn do_request(env: &WorkerEnv, scn: &Scn, req: &Req, thread: usize, idx: usize, 
     r
 }
 
+static SERVER: Mutex<Option<ServerChild>> = Mutex::new(None);
+
+fn http_outcome(status: u16, body: &[u8]) -> Outcome {
+    if status == 200 {
+        Outcome::Ok(body.to_vec())
+    } else if status == 400 {
+        let t = String::from_utf8_lossy(body).into_owned();
+        match t.strip_prefix("Error: ") {
+            Some(m) => Outcome::Err(m.to_string()),
+            None => Outcome::Panic(format!("400 body without 'Error: ' prefix: {}", shorten(&t, 100))),
+        }
+    } else {
+        Outcome::Panic(format!("http status {status}"))
+    }
+}
+
 fn small_corpus(env: &WorkerEnv) -> Vec<(String, Vec<u8>)> {
     docgen::corpus(env).into_iter().filter(|(_, b)| b.len() < 2500).collect()
 }
@@ -392,7 +447,10 @@ impl Engine for C07 {
                 if !utf8 && (fe == "str" || fe == "router") {
                     fe = "stream";
                 }
-                let cfg = if fe == "router" { server_cfgs[w.usize(server_cfgs.len())] } else { w.usize(cfgs.len()) };
+                if fe == "router" && (index % 16 == 5 || (tier == Tier::Thorough && index % 4 == 1)) {
+                    fe = "server-proc";
+                }
+                let cfg = if fe == "router" || fe == "server-proc" { server_cfgs[w.usize(server_cfgs.len())] } else { w.usize(cfgs.len()) };
                 let mut r = Req {
                     fe: fe.to_string(),
                     doc,
@@ -503,6 +561,15 @@ impl Engine for C07 {
                     "c07:golden-order-dependent",
                     format!("solo result of (doc {}, cfg {}) differs between the forward and the reverse pass: {} vs {}", p.0, p.1, golden[p].brief(), again.brief()),
                 );
+            }
+        }
+
+        // the real server (if any request wants it) is started from this thread: a child is
+        // tied to the thread that spawned it (PR_SET_PDEATHSIG), and simulated threads end
+        if scn.threads.iter().flatten().any(|r| r.fe == "server-proc") {
+            let mut guard = SERVER.lock().unwrap();
+            if guard.as_mut().map(|s| !s.alive()).unwrap_or(true) {
+                *guard = ServerChild::start(env, server_port()).ok();
             }
         }
 
@@ -701,7 +768,7 @@ impl Engine for C07 {
             }
             // --- isolation / agreement with the golden result of the request's own pair
             let g_for_fe: Outcome = match (fe, g) {
-                ("router", Outcome::Ok(b)) if b.is_empty() => Outcome::Err("Empty response".into()),
+                ("router" | "server-proc", Outcome::Ok(b)) if b.is_empty() => Outcome::Err("Empty response".into()),
                 (_, o) => o.clone(),
             };
             let agrees = match (&r.outcome, &g_for_fe) {
@@ -732,7 +799,7 @@ impl Engine for C07 {
                 );
             }
             // --- protocol mapping of the front-end
-            if fe == "router" {
+            if fe == "router" || fe == "server-proc" {
                 if let Some((status, ct)) = &r.http {
                     let ok = match &r.outcome {
                         Outcome::Ok(_) => *status == 200 && ct.starts_with("image/svg+xml"),
